@@ -32,9 +32,10 @@ const (
 	ParseFS
 	Templates
 	Defined
+	CSP // t.CSPCompatible(): a setting of the set, replayed like a definition call
 )
 
-var kindNames = [...]string{"exec", "lookup", "new", "clone", "parse", "parsefiles", "parseglob", "parsefs", "templates", "defined"}
+var kindNames = [...]string{"exec", "lookup", "new", "clone", "parse", "parsefiles", "parseglob", "parsefs", "templates", "defined", "CSPCompatible"}
 
 // Op is one API call of a history.
 type Op struct {
@@ -201,6 +202,8 @@ func (w *world) apply(o Op) (obs Obs) {
 		obs.Out = fmt.Sprint(len(names))
 	case Defined:
 		obs.Out = t.DefinedTemplates()
+	case CSP:
+		t.CSPCompatible()
 	}
 	return
 }
@@ -385,6 +388,9 @@ func (m *Model) Step(o Op, obs Obs) Expect {
 			m.SlotSet[o.Dst], m.SlotNil[o.Dst], m.SlotPost[o.Dst] = len(m.Sets)-1, false, false
 			m.SlotName[o.Dst] = m.name(o.H)
 		}
+	case CSP:
+		s.Lineage = append(s.Lineage, o)
+		e.DefChanges = true
 	case Parse, ParseFiles, ParseGlob, ParseFS:
 		if s.Executed {
 			e.MustErr = true
